@@ -606,3 +606,29 @@ Section HLLCWall.
     destruct p as [[p1 p2] p3]. unfold vdot, vnorm2, vzero, mkv, vx, vy, vz. cbn. ring.
   Qed.
 End HLLCWall.
+
+(* ---------------- the hypotheses of the theorems are satisfiable ---------------- *)
+Section Satisfiable.
+  (* a wall state the HLLC hypothesis admits: unit gas at rest next to the +x wall, gamma = 2 *)
+  Example hllc_wall_ok_satisfiable : hllc_wall_ok 1 2 0 1 (0, 0, 0) 1 (vset R 0 (vzero R (ROps 0 1)) 1).
+  Proof.
+    unfold hllc_wall_ok. split; [lra|]. split; [lra|]. split; [exists 1; split; [left; reflexivity|reflexivity]|].
+    cbv zeta. assert (H : 0 < R_sqrt.sqrt (2 * 1 / 1)) by (apply sqrt_lt_R0; lra).
+    unfold vdot, vset, vzero, mkv, vx, vy, vz. cbn. split; lra.
+  Qed.
+
+  (* the premises of periodic_step_conserves hold e.g. for any Riemann function, any periodic layout, any state with non-negative
+     mass and energy, zeroed accumulators, no sources, and a zero time step (and by continuity for small ones) *)
+  Example periodic_hypotheses_satisfiable eps gfloor riemann gamma dxs As L bkind (st : state R) :
+    wf_layout L ->
+    (forall j, dcons R (st j) = zero5 R (ROps eps gfloor) /\ no_source eps gfloor (st j) /\ 0 <= c0 R (cons R (st j)) /\ 0 <= c4 R (cons R (st j))) ->
+    (forall j, In j (all_cells L) -> dcons R (st j) = zero5 R (ROps eps gfloor) /\ no_source eps gfloor (st j))
+    /\ (forall j, In j (all_cells L) -> no_clamp 0 (flux_phase R (ROps eps gfloor) riemann gamma bkind dxs As 0 (global_faces L) st j)).
+  Proof.
+    intros _ H. split.
+    - intros j _. destruct (H j) as (A & B & _). split; assumption.
+    - intros j _. destruct (H j) as (_ & _ & A & B).
+      destruct (flux_phase_same eps gfloor riemann gamma bkind dxs As 0 (global_faces L) st j) as (_ & Hc & _).
+      unfold no_clamp. rewrite Hc. split; lra.
+  Qed.
+End Satisfiable.
